@@ -67,11 +67,31 @@ def defs(ind: str, doc: Optional[str], name: str = 'X') -> Dict[str, str]:
         'async_static': f'{ind}@staticmethod\n{ind}async def {X}(a):\n{body}{P}',
         'class_kw': f'{ind}class {X}(object, metaclass=type):\n{body}{P}',
         **stacks(ind, body, X),
+        **busy(ind, body, X),
         # a function defined OUTSIDE the class (module level, same name) wrapped in the class body: the class binds the name
         'outer-static': (f'def {X}(a):\n    "outer {X}"\n    pass\n', f'{ind}{X} = staticmethod({X})\n'),
         'outer-clsm': (f'def {X}(a):\n    "outer {X}"\n    pass\n', f'{ind}{X} = classmethod({X})\n'),
         'outer-static-other-name': (f'def O0{X}(a):\n    "outer {X}"\n    pass\n', f'{ind}{X} = staticmethod(O0{X})\n'),
     }
+
+
+BUSY_BODY = ('{i}    pi0{X} = 3.14\n{i}    tpl0{X}: str = "t"\n{i}    def inner0{X}(v): return v\n{i}    class Local0{X}:\n{i}        z = 1\n'
+             '{i}    import os as os0{X}\n{i}    for loop0{X} in (1,):\n{i}        pass\n{i}    with open as w0{X}:\n{i}        in_with0{X} = 1\n{i}    return None\n')
+
+
+def busy(ind: str, body: str, X: str) -> Dict[str, str]:
+    """the body of every kind of callable is opaque: locals, inner functions / classes / imports bind nothing in the enclosing namespace"""
+    bb = BUSY_BODY.replace('{i}', ind).replace('{X}', X)
+    out = {
+        'busy:def': f'{ind}def {X}(a):\n{body}{bb}',
+        'busy:adef': f'{ind}async def {X}(a):\n{body}{bb}',
+        'busy:prop': f'{ind}@property\n{ind}def {X}(self):\n{body}{bb}',
+        'busy:prop+setter': f'{ind}@property\n{ind}def {X}(self):\n{body}{bb}{ind}@{X}.setter\n{ind}def {X}(self, a):\n{bb}',
+        'busy:static': f'{ind}@staticmethod\n{ind}def {X}(a):\n{body}{bb}',
+        'busy:clsm': f'{ind}@classmethod\n{ind}def {X}(cls):\n{body}{bb}',
+        'busy:cached-prop': f'{ind}import functools as ft0{X}\n{ind}@ft0{X}.cached_property\n{ind}def {X}(self):\n{body}{bb}',
+    }
+    return out
 
 
 OTHERS = {
@@ -107,6 +127,8 @@ PLACE: Dict[str, Tuple[str, ...]] = {
     'nestedclass': ('class K:\n    class N:\n', '        '),
     'if': ('if True:\n', '    '),
     'try': ('try:\n', '    ', 'except Exception:\n    pass\n'),
+    # the try body completes normally: what the handler / the else clause of a failing test defines is never bound
+    'try-handler-defs': ('try:\n', '    ', 'except ImportError:\n    def X(a, b, c):\n        "handler version"\n    HX0 = "only in the handler"\n    class HK0:\n        pass\n'),
     'with': ('import contextlib\nwith contextlib.nullcontext():\n', '    '),
     'for': ('for _i in (1,):\n', '    '),
     'class-if': ('class K:\n    if True:\n', '        '),
@@ -224,7 +246,7 @@ def run_sources(items: Sequence[Tuple[str, str, List[Tuple[str, str, Optional[st
         # nothing invented: every documented name of the namespace is bound by CPython (negative placements: nothing planted)
         if pl not in NEGATIVE and pl not in UNJUDGED:
             for k in dns.contents:
-                if k not in vars(pns) and not k.startswith('_'):
+                if k not in vars(pns) and not k.startswith('_') and not k.endswith(('.setter', '.deleter')):      # 'p.setter' is how a setter is listed, by design
                     res['violations'].append(core.violation(f'invented-extra/{pl}', f'pydoctor documents {k}, CPython does not bind it:\n{full}', {'kind': 'src', 'src': full, 'place': pl, 'names': [k]}))
 
 
@@ -239,9 +261,10 @@ def singles() -> List[Tuple[str, str, List[Tuple[str, str, Optional[str]]], str]
         ind = spec[1]
         for dn, doc in DOCS.items():
             for kn, src in defs(ind, doc).items():
-                if (kn in CLASS_ONLY or (kn.startswith('stack:') and ':none:' not in kn)) and not pl.startswith(('class', 'nestedclass')):
+                if (kn in CLASS_ONLY or (kn.startswith('stack:') and ':none:' not in kn) or kn in ('busy:prop', 'busy:prop+setter', 'busy:static', 'busy:clsm', 'busy:cached-prop')) \
+                        and not pl.startswith(('class', 'nestedclass')):
                     continue
-                if kn.startswith(('stack:', 'outer-')) and dn not in ('none', 'one', 'below'):
+                if kn.startswith(('stack:', 'outer-', 'busy:')) and dn not in ('none', 'one', 'below'):
                     continue
                 prelude = ''
                 if isinstance(src, tuple):
